@@ -369,30 +369,48 @@ theorem cnt_zBA (r : Row) : cnt .B (zeroCleaned .B (zeroCleaned .A r)) = ownCnt 
   · by_cases hc : c.nTotal = 0 <;>
       simp [zeroCleaned_zero, zeroCleaned_pos, hc, cnt, ownCnt, Halo.np, Halo.zeroNp]
 
-theorem newIdx_eq (o : Opts) (kept : List (List Row)) :
+/-- no kept halo has 2^32 or more particles in a loaded subsample -/
+def small32 (o : Opts) (tbl : List Row) : Prop := ∀ r ∈ tbl, ∀ X ∈ loadList o, ownCnt X r < 2 ^ 32
+
+theorem newIdx_eq (o : Opts) (kept : List (List Row)) (hs : small32 o kept.flatten) :
     newIdx (loadList o) kept.flatten 0 =
       .ok (kept.flatten.map (zOf (loadList o)), newsOf o kept) := by
   unfold newsOf offOf cntsOf
-  generalize kept.flatten = tbl
-  have e1 : ∀ X, (tbl.map (zeroCleaned X)).map (cnt X) = tbl.map (ownCnt X) := by
-    intro X; rw [List.map_map]; exact List.map_congr_left (fun r _ => cnt_z1 X r)
-  have e2 : ((tbl.map (zeroCleaned .A)).map (zeroCleaned .B)).map (cnt .B) = tbl.map (ownCnt .B) := by
-    rw [List.map_map, List.map_map]; exact List.map_congr_left (fun r _ => cnt_zBA r)
+  unfold small32 at hs
+  generalize kept.flatten = tbl at hs ⊢
+  have e1 : ∀ X ∈ loadList o, (tbl.map (zeroCleaned X)).map (cnt32 X) = tbl.map (ownCnt X) := by
+    intro X hX; rw [List.map_map]
+    apply List.map_congr_left
+    intro r hr
+    simp only [Function.comp, cnt32, cnt_z1]
+    exact Nat.mod_eq_of_lt (hs r hr X hX)
+  have e2 : Sub.B ∈ loadList o →
+      ((tbl.map (zeroCleaned .A)).map (zeroCleaned .B)).map (cnt32 .B) = tbl.map (ownCnt .B) := by
+    intro hB
+    rw [List.map_map, List.map_map]
+    apply List.map_congr_left
+    intro r hr
+    simp only [Function.comp, cnt32, cnt_zBA]
+    exact Nat.mod_eq_of_lt (hs r hr .B hB)
   cases ha : o.loadA <;> cases hb : o.loadB <;> simp only [loadList, ha, hb, if_true, if_false,
     Bool.false_eq_true, List.append_nil, List.nil_append, List.cons_append, List.map_cons, List.map_nil]
   · simp [newIdx, zOf_nil]
-  · unfold newIdx
-    simp only [cumsumArr_eq, e1]
+  · have h1 := e1 .B (by simp [loadList, ha, hb])
+    unfold newIdx
+    simp only [cumsumArr_eq, h1]
     unfold newIdx
     simp [zOf_nil, zOf_cons]
-  · unfold newIdx
-    simp only [cumsumArr_eq, e1]
+  · have h1 := e1 .A (by simp [loadList, ha, hb])
+    unfold newIdx
+    simp only [cumsumArr_eq, h1]
     unfold newIdx
     simp [zOf_nil, zOf_cons]
-  · unfold newIdx
-    simp only [cumsumArr_eq, e1]
+  · have h1 := e1 .A (by simp [loadList, ha, hb])
+    have h2 := e2 (by simp [loadList, ha, hb])
     unfold newIdx
-    simp only [cumsumArr_eq, e2]
+    simp only [cumsumArr_eq, h1]
+    unfold newIdx
+    simp only [cumsumArr_eq, h2]
     unfold newIdx
     simp [zOf_nil, zOf_cons, Function.comp_def]
 
@@ -568,16 +586,385 @@ theorem zipAll_eq {α} (o : Opts) (slabs : List (Slab α)) (kept : List (List Ro
     simp [-List.map_flatten, loadList, ha, hb, newsOf, zipAll, specW, allParts, offOf, zA, zB]
     simpa [hlen .A hA] using e
 
+theorem mem_zip_of_mem_right {β γ} : ∀ (l1 : List β) (l2 : List γ) (k : γ),
+    l1.length = l2.length → k ∈ l2 → ∃ s, (s, k) ∈ l1.zip l2 := by
+  intro l1
+  induction l1 with
+  | nil => intro l2 k hl hk; cases l2 with
+    | nil => cases hk
+    | cons _ _ => simp at hl
+  | cons a l1 ih =>
+    intro l2 k hl hk
+    cases l2 with
+    | nil => cases hk
+    | cons b l2 =>
+      rcases List.mem_cons.mp hk with rfl | hk'
+      · exact ⟨a, by simp⟩
+      · obtain ⟨s, hs⟩ := ih l2 k (by simpa using hl) hk'
+        exact ⟨s, by simp [hs]⟩
+
+theorem small32_of_keptWF {α} (o : Opts) (slabs : List (Slab α)) (kept : List (List Row))
+    (hk : keptWF o slabs kept) : small32 o kept.flatten := by
+  intro r hr X hX
+  obtain ⟨k, hk1, hk2⟩ := List.mem_flatten.mp hr
+  obtain ⟨s, hs⟩ := mem_zip_of_mem_right slabs kept k hk.1 hk1
+  have := hk.2 (s, k) hs r hk2 X hX
+  simp only [rowWF, Bool.and_eq_true, decide_eq_true_eq] at this
+  exact this.2
+
+theorem cntsOf_mod (o : Opts) (kept : List (List Row)) (hs : small32 o kept.flatten) (X : Sub)
+    (hX : X ∈ loadList o) : (cntsOf X kept).map (· % 2 ^ 32) = cntsOf X kept := by
+  unfold cntsOf
+  rw [List.map_map]
+  apply List.map_congr_left
+  intro r hr
+  exact Nat.mod_eq_of_lt (hs r hr X hX)
+
+/-! ### the loops as coded (index rule) equal their structural forms, faults included -/
+
+theorem getAt_append {β} (pre : List β) (x : β) (rest : List β) :
+    getAt (pre ++ x :: rest) pre.length = .ok x := by
+  unfold getAt idx
+  rw [pyIndex_nonneg (by simp)]
+  simp
+
+theorem getAt_oob {β} (l : List β) (i : Nat) (h : l.length ≤ i) : getAt l i = .error .oob := by
+  unfold getAt idx pyIndex
+  have h0 : (0 : Int) ≤ (i : Int) := Int.natCast_nonneg i
+  simp only [h0, if_true, Int.toNat_natCast]
+  rw [if_neg (by omega)]
+
+theorem zipRowsI_go_eq {α} (rawCol : Bool) (nSub : Nat) (X : Sub) (part cl : List α) :
+    ∀ (rest : List Row) (pre : List Row) (spre srest : List Nat), spre.length = pre.length →
+      zipRowsI.go rawCol nSub X part cl (pre ++ rest) (spre ++ srest) pre.length rest.length =
+        zipRows rawCol nSub X part cl rest srest := by
+  intro rest
+  induction rest with
+  | nil => intro pre spre srest _; simp [zipRowsI.go, zipRows]
+  | cons r rs ih =>
+    intro pre spre srest hl
+    simp only [List.length_cons]
+    unfold zipRowsI.go
+    rw [getAt_append]
+    simp only []
+    cases srest with
+    | nil =>
+      rw [getAt_oob _ _ (by simp [hl])]
+      simp [zipRows]
+    | cons w0 srest' =>
+      rw [← hl, getAt_append]
+      simp only []
+      cases srest' with
+      | nil =>
+        rw [getAt_oob _ _ (by simp)]
+        simp [zipRows]
+      | cons w1 more =>
+        have e : spre ++ w0 :: w1 :: more = (spre ++ [w0]) ++ w1 :: more := by simp
+        have hl1 : (spre ++ [w0]).length = spre.length + 1 := by simp
+        rw [e, ← hl1, getAt_append]
+        simp only []
+        have ihh := ih (pre ++ [r]) (spre ++ [w0]) (w1 :: more) (by simp [hl])
+        simp only [List.length_append, List.length_singleton, List.append_assoc, List.singleton_append] at ihh
+        rw [hl1, hl]
+        rw [← e]
+        rw [ihh]
+        simp [zipRows]
+
+theorem zipRowsI_eq {α} (rawCol : Bool) (nSub : Nat) (X : Sub) (part cl : List α) (rows : List Row)
+    (swo : List Nat) : zipRowsI rawCol nSub X part cl rows swo = zipRows rawCol nSub X part cl rows swo := by
+  have := zipRowsI_go_eq rawCol nSub X part cl rows [] [] swo rfl
+  simpa [zipRowsI] using this
+
+theorem zipSlabsI_go_eq {α} (rawCol : Bool) (nSub : Nat) (X : Sub) (tbl : List Row) (new : List Nat) :
+    ∀ (rest : List (Slab α)) (pre : List (Slab α)) (hpre hrest : List Nat), hpre.length = pre.length →
+      zipSlabsI.go rawCol nSub X tbl new (pre ++ rest) (hpre ++ hrest) pre.length rest.length =
+        zipSlabs rawCol nSub X tbl new rest hrest := by
+  intro rest
+  induction rest with
+  | nil => intro pre hpre hrest _; simp [zipSlabsI.go, zipSlabs]
+  | cons s ss ih =>
+    intro pre hpre hrest hl
+    simp only [List.length_cons]
+    unfold zipSlabsI.go
+    rw [getAt_append]
+    simp only []
+    cases hrest with
+    | nil =>
+      rw [getAt_oob _ _ (by simp [hl])]
+      simp [zipSlabs]
+    | cons h0 hrest' =>
+      rw [← hl, getAt_append]
+      simp only []
+      cases hrest' with
+      | nil =>
+        rw [getAt_oob _ _ (by simp)]
+        simp [zipSlabs]
+      | cons h1 more =>
+        have e : hpre ++ h0 :: h1 :: more = (hpre ++ [h0]) ++ h1 :: more := by simp
+        have hl1 : (hpre ++ [h0]).length = hpre.length + 1 := by simp
+        rw [e, ← hl1, getAt_append]
+        simp only []
+        have ihh := ih (pre ++ [s]) (hpre ++ [h0]) (h1 :: more) (by simp [hl])
+        simp only [List.length_append, List.length_singleton, List.append_assoc, List.singleton_append] at ihh
+        rw [hl1, hl, ← e, ihh, zipRowsI_eq]
+        simp [zipSlabs]
+
+theorem zipSlabsI_eq {α} (rawCol : Bool) (nSub : Nat) (X : Sub) (tbl : List Row) (new : List Nat)
+    (slabs : List (Slab α)) (hfo : List Nat) :
+    zipSlabsI rawCol nSub X tbl new slabs hfo = zipSlabs rawCol nSub X tbl new slabs hfo := by
+  have := zipSlabsI_go_eq rawCol nSub X tbl new slabs [] [] hfo rfl
+  simpa [zipSlabsI] using this
+
+theorem zipAllI_eq {α} (rawCol : Bool) (nSub : Nat) (tbl : List Row) (slabs : List (Slab α)) (hfo : List Nat)
+    (news : List (Sub × List Nat)) :
+    zipAllI rawCol nSub tbl slabs hfo news = zipAll rawCol nSub tbl slabs hfo news := by
+  induction news with
+  | nil => rfl
+  | cons p rest ih =>
+    obtain ⟨X, new⟩ := p
+    simp only [zipAllI, zipAll, zipSlabsI_eq, ih]
+
+/-! ### the preallocated halo table -/
+
+/-- the rows file `i` keeps -/
+def keptOf (rows : List Row) : Option (List Bool) → List Row
+  | none => rows
+  | some m => maskRows rows m
+
+/-- `kept` is what the per-file loop keeps of the unpacked tables `rowss` under the masks `mks` -/
+def ReadRel : List (List Row) → List (Option (List Bool)) → List (List Row) → Prop
+  | [], _, [] => True
+  | rows :: rs, m :: ms, k :: ks =>
+    (∀ m', m = some m' → m'.length = rows.length) ∧ k = keptOf rows m ∧ ReadRel rs ms ks
+  | _, _, _ => False
+
+theorem readAll_rel {α} (cleaned : Bool) :
+    ∀ (slabs : List (Slab α)) (mks : List (Option (List Bool))) (kept : List (List Row)),
+      readAll cleaned slabs mks = .ok kept →
+      ∃ rowss, allRowsOf cleaned slabs = .ok rowss ∧ ReadRel rowss mks kept := by
+  intro slabs
+  induction slabs with
+  | nil => intro mks kept h; simp [readAll] at h; subst h; exact ⟨[], rfl, trivial⟩
+  | cons s ss ih =>
+    intro mks kept h
+    cases mks with
+    | nil => simp [readAll] at h
+    | cons m ms =>
+      unfold readAll at h
+      cases hf : readFile cleaned s m with
+      | error e => simp [hf] at h
+      | ok k =>
+        cases hr : readAll cleaned ss ms with
+        | error e => simp [hf, hr] at h
+        | ok ks =>
+          simp only [hf, hr, Except.ok.injEq] at h
+          subst h
+          obtain ⟨rs, hrs, hrel⟩ := ih ms ks hr
+          unfold readFile at hf
+          cases hrow : rowsOf cleaned s with
+          | error e => simp [hrow] at hf
+          | ok rows =>
+            simp only [hrow] at hf
+            refine ⟨rows :: rs, by simp [allRowsOf, hrow, hrs], ?_⟩
+            cases m with
+            | none =>
+              simp only [Except.ok.injEq] at hf
+              subst hf
+              exact ⟨fun m' hm => (by cases hm), rfl, hrel⟩
+            | some m0 =>
+              simp only at hf
+              split at hf
+              · cases hf
+              · rename_i hne
+                simp only [Except.ok.injEq] at hf
+                subst hf
+                refine ⟨fun m' hm => ?_, rfl, hrel⟩
+                cases hm
+                exact Classical.byContradiction (fun hc => hne hc)
+
+theorem applyWrites_cons {β} (a : List β) (w : Nat × β) (ws : List (Nat × β)) :
+    applyWrites a (w :: ws) = applyWrites (a.set w.1 w.2) ws := rfl
+
+/-- writing `l` into the window that starts right after `pre` replaces exactly that window -/
+theorem applyWrites_window {β} (post : List (Option β)) :
+    ∀ (l : List β) (pre old : List (Option β)), old.length = l.length →
+      applyWrites (pre ++ old ++ post) (((List.range' pre.length l.length).zip l).map (fun w => (w.1, some w.2))) =
+        pre ++ l.map some ++ post := by
+  intro l
+  induction l with
+  | nil =>
+    intro pre old h
+    have : old = [] := List.eq_nil_of_length_eq_zero (by simpa using h)
+    subst this
+    simp [applyWrites]
+  | cons x l ih =>
+    intro pre old h
+    cases old with
+    | nil => simp at h
+    | cons o old' =>
+      simp only [List.length_cons, List.range'_succ, List.zip_cons_cons, List.map_cons, applyWrites_cons]
+      have hset : (pre ++ o :: old' ++ post).set pre.length (some x) = (pre ++ [some x]) ++ old' ++ post := by
+        simp [List.set_append]
+      rw [hset]
+      have := ih (pre ++ [some x]) old' (by simpa using h)
+      simp only [List.length_append, List.length_singleton] at this
+      rw [this]
+      simp
+
+theorem maskRows_length_le {β} (rows : List β) (m : List Bool) : (maskRows rows m).length ≤ rows.length := by
+  simp only [maskRows, List.length_map]
+  exact Nat.le_trans (List.length_filter_le _ _) (by simp [List.length_zip]; omega)
+
+theorem keptOf_length_le (rows : List Row) (m : Option (List Bool)) : (keptOf rows m).length ≤ rows.length := by
+  cases m with
+  | none => exact Nat.le_refl _
+  | some m => exact maskRows_length_le rows m
+
+/-- **the compaction, as writes into the allocation.**  Started at `N_written = done.length` on an allocation
+`done ++ free` with room for all remaining raw rows, the per-file loop succeeds, every write lands inside the
+allocation, the final `N_written` is advanced by the number of kept rows, and afterwards the allocation is
+`done ++ kept rows (in file order) ++ leftover`, nothing else having changed -/
+theorem compact_spec :
+    ∀ (rowss : List (List Row)) (mks : List (Option (List Bool))) (kept : List (List Row)),
+      ReadRel rowss mks kept →
+      ∀ (done free : List (Option Row)), total (rowss.map List.length) ≤ free.length →
+        ∃ ws free', compact rowss mks done.length =
+            .ok (ws, done.length + kept.flatten.length, kept.map List.length) ∧
+          (∀ w ∈ ws, w.1 < done.length + total (rowss.map List.length)) ∧
+          applyWrites (done ++ free) (ws.map (fun w => (w.1, some w.2))) =
+            done ++ kept.flatten.map some ++ free' := by
+  intro rowss
+  induction rowss with
+  | nil =>
+    intro mks kept hrel done free _
+    cases kept with
+    | nil => exact ⟨[], free, by simp [compact], by simp, by simp [applyWrites]⟩
+    | cons _ _ => cases mks <;> exact absurd hrel (by simp [ReadRel])
+  | cons rows rs ih =>
+    intro mks kept hrel done free hfree
+    cases mks with
+    | nil => exact absurd hrel (by simp [ReadRel])
+    | cons m ms =>
+      cases kept with
+      | nil => exact absurd hrel (by simp [ReadRel])
+      | cons k ks =>
+        obtain ⟨hm, hk, hrest⟩ := hrel
+        simp only [List.map_cons, total_cons] at hfree
+        -- split the free space: the window of this file, and the rest
+        have hsplit : free = free.take rows.length ++ free.drop rows.length := (List.take_append_drop _ _).symm
+        have hwin : (free.take rows.length).length = rows.length := by
+          rw [List.length_take]; omega
+        have hkl : k.length ≤ rows.length := by rw [hk]; exact keptOf_length_le rows m
+        -- after unpacking the file into its window
+        have hload := applyWrites_window (free.drop rows.length) rows done (free.take rows.length) hwin
+        -- after `halos[:nmask] = halos[mask]`
+        have hmaskw := applyWrites_window ((rows.map some).drop k.length ++ free.drop rows.length)
+          k done ((rows.map some).take k.length) (by
+            rw [List.length_take, List.length_map]; omega)
+        have hre : done ++ (rows.map some).take k.length ++
+            ((rows.map some).drop k.length ++ free.drop rows.length) =
+            done ++ rows.map some ++ free.drop rows.length := by
+          rw [List.append_assoc, List.append_assoc, ← List.append_assoc ((rows.map some).take _),
+            List.take_append_drop]
+        rw [hre] at hmaskw
+        -- the remaining files
+        obtain ⟨ws, free', hc, hidx, happ⟩ := ih ms ks hrest (done ++ k.map some)
+          ((rows.map some).drop k.length ++ free.drop rows.length) (by
+            simp only [List.length_append, List.length_drop, List.length_map]; omega)
+        simp only [List.length_append, List.length_map] at hc hidx
+        simp only [List.map_cons, total_cons, List.flatten_cons, List.length_append, List.map_append]
+        cases m with
+        | none =>
+          simp only [keptOf] at hk
+          subst hk
+          refine ⟨(List.range' done.length k.length).zip k ++ [] ++ ws, free', ?_, ?_, ?_⟩
+          · unfold compact
+            simp only []
+            rw [hc]
+            simp [Nat.add_assoc]
+          · intro w hw
+            simp only [List.append_nil, List.mem_append] at hw
+            rcases hw with hw | hw
+            · have := (List.of_mem_zip hw).1
+              simp only [List.mem_range'_1] at this
+              omega
+            · have := hidx w hw
+              omega
+          · rw [List.append_nil, List.map_append, Cumsum.applyWrites_append]
+            conv => lhs; rw [hsplit, ← List.append_assoc]
+            rw [hload]
+            have hd : (k.map some).drop k.length = [] := by simp
+            simp only [hd, List.nil_append] at happ
+            rw [happ]
+            simp [List.append_assoc]
+        | some m0 =>
+          have hml : m0.length = rows.length := hm m0 rfl
+          simp only [keptOf] at hk
+          refine ⟨(List.range' done.length rows.length).zip rows ++
+            (List.range' done.length k.length).zip k ++ ws, free', ?_, ?_, ?_⟩
+          · unfold compact
+            simp only [hml, ne_eq, not_true_eq_false, if_false, ← hk]
+            rw [hc]
+            simp [Nat.add_assoc]
+          · intro w hw
+            simp only [List.mem_append] at hw
+            rcases hw with (hw | hw) | hw
+            · have := (List.of_mem_zip hw).1
+              simp only [List.mem_range'_1] at this
+              omega
+            · have := (List.of_mem_zip hw).1
+              simp only [List.mem_range'_1] at this
+              omega
+            · have := hidx w hw
+              omega
+          · rw [List.map_append, List.map_append, Cumsum.applyWrites_append, Cumsum.applyWrites_append]
+            conv => lhs; rw [hsplit, ← List.append_assoc]
+            rw [hload, hmaskw, happ]
+            simp [List.append_assoc]
+
+theorem allSome_map {β} (l : List β) : allSome (l.map some) = some l := by
+  induction l with
+  | nil => rfl
+  | cons x l ih => simp [allSome, ih]
+
+theorem take_map_some_append {β} (l : List β) (f : List (Option β)) :
+    (l.map some ++ f).take l.length = l.map some :=
+  List.take_left' (by simp)
+
+/-- **readTable_eq.**  Whenever the structural compaction goes through, the table built through the
+preallocated array is the kept rows in file order, and `N_halo_per_file` their per-file numbers. -/
+theorem readTable_eq {α} (cleaned : Bool) (slabs : List (Slab α)) (mks : List (Option (List Bool)))
+    (kept : List (List Row)) (h : readAll cleaned slabs mks = .ok kept) :
+    readTable cleaned slabs mks = .ok (kept.flatten, kept.map List.length) := by
+  obtain ⟨rowss, hrows, hrel⟩ := readAll_rel cleaned slabs mks kept h
+  obtain ⟨ws, free', hc, hidx, happ⟩ := compact_spec rowss mks kept hrel []
+    (List.replicate (total (rowss.map List.length)) none) (by simp)
+  simp only [List.length_nil, Nat.zero_add, List.nil_append] at hc hidx happ
+  unfold readTable
+  have htot : (rowss.map List.length).foldr (· + ·) 0 = total (rowss.map List.length) := rfl
+  simp only [hrows, hc, htot]
+  rw [if_pos (by simpa using hidx), happ]
+  rw [take_map_some_append, allSome_map]
+
+theorem loadW_eq {α} (o : Opts) (slabs : List (Slab α)) (mks : List (Option (List Bool)))
+    (kept : List (List Row)) (h1 : masksFor o.masks slabs.length = .ok mks)
+    (h2 : readAll o.cleaned slabs mks = .ok kept) : loadW o slabs = loadWS o slabs := by
+  unfold loadW loadWS
+  simp only [h1, h2, readTable_eq o.cleaned slabs mks kept h2, zipAllI_eq]
+
 theorem loadW_spec {α} (o : Opts) (slabs : List (Slab α)) (h : wf o slabs = true) :
     ∃ mks kept, masksFor o.masks slabs.length = .ok mks ∧ readAll o.cleaned slabs mks = .ok kept ∧
       keptWF o slabs kept ∧ loadW o slabs = .ok (specRes o slabs kept, specW o slabs kept) := by
   obtain ⟨mks, kept, h1, h2, hk⟩ := wf_kept o slabs h
   refine ⟨mks, kept, h1, h2, hk, ?_⟩
-  unfold loadW
+  rw [loadW_eq o slabs mks kept h1 h2]
+  have hs := small32_of_keptWF o slabs kept hk
+  unfold loadWS
   simp only [h1, h2]
   by_cases hne : loadList o = []
   · simp [hne, specRes, specW, allParts]
-  · simp only [hne, if_false, newIdx_eq, nSubsamp_eq o kept hne, cumsumArr_eq, zipAll_eq o slabs kept hk]
+  · simp only [hne, if_false, newIdx_eq o kept hs, nSubsamp_eq o kept hne, cumsumArr_eq,
+      zipAll_eq o slabs kept hk]
     have hN : (allParts o slabs kept).length = total ((loadList o).map (fun X => total (cntsOf X kept))) := by
       have hlen := fun X hX => partsOf_length o X hX slabs kept hk
       cases ha : o.loadA <;> cases hb : o.loadB <;>
@@ -585,8 +972,223 @@ theorem loadW_spec {α} (o : Opts) (slabs : List (Slab α)) (h : wf o slabs = tr
     congr 2
     unfold specRes
     congr 1
-    · simp [newsOf, diff_offsets]
+    · simp only [newsOf, List.map_map]
+      apply List.map_congr_left
+      intro X hX
+      simp only [Function.comp, diff32, diff_offsets, cntsOf_mod o kept hs X hX]
     · rw [← hN]
       exact applyWrites_zip (allParts o slabs kept)
+
+/-! ### well-formedness as a direct predicate on the input -/
+
+/-- all rows of a superslab file: each halo with its cleaning record (cleaned load), or alone -/
+def allRows {α} (cleaned : Bool) (s : Slab α) : List Row :=
+  if cleaned then s.halos.zip (s.clean.map some) else s.halos.map (fun h => (h, none))
+
+/-- a halo row is well-formed for subsample X: unless the halo was cleaned away its raw range lies inside the
+particle file, its merge range lies inside the cleaning file, and it has fewer than 2^32 particles in all
+(`npout + npout_merge` is a sum of `uint32` columns) -/
+def rowOK {α} (X : Sub) (part cl : List α) (r : Row) : Prop :=
+  (match r.2 with
+   | some c => (c.nTotal ≠ 0 → r.1.start X + r.1.np X ≤ part.length) ∧ c.mStart X + c.mNp X ≤ cl.length
+   | none => r.1.start X + r.1.np X ≤ part.length) ∧
+  ownCnt X r < 2 ^ 32
+
+/-- a superslab with the mask its filter call returns (`none`: no filter): the cleaning table is as long as the
+halo table, the mask is as long as the halo table, and every KEPT row is well-formed for every LOADED
+subsample -/
+def slabOK {α} (o : Opts) (s : Slab α) (m : Option (List Bool)) : Prop :=
+  (o.cleaned = true → s.clean.length = s.halos.length) ∧
+  match m with
+  | none => ∀ r ∈ allRows o.cleaned s, ∀ X ∈ loadList o, rowOK X (s.part X) (s.cleanPart X) r
+  | some m => m.length = s.halos.length ∧
+      ∀ q ∈ (allRows o.cleaned s).zip m, q.2 = true →
+        ∀ X ∈ loadList o, rowOK X (s.part X) (s.cleanPart X) q.1
+
+/-- **explicit well-formedness** of a load request: one mask per superslab and every superslab `slabOK` -/
+def wfE {α} (o : Opts) (slabs : List (Slab α)) : Prop :=
+  match o.masks with
+  | none => ∀ s ∈ slabs, slabOK o s none
+  | some ms => ms.length = slabs.length ∧ ∀ p ∈ slabs.zip ms, slabOK o p.1 (some p.2)
+
+theorem rowWF_iff {α} (X : Sub) (part cl : List α) (r : Row) :
+    rowWF X part cl r = true ↔ rowOK X part cl r := by
+  rcases r with ⟨h, _ | c⟩
+  · simp [rowWF, rowOK]
+  · simp only [rowWF, rowOK, Bool.and_eq_true, Bool.or_eq_true, decide_eq_true_eq]
+    constructor
+    · rintro ⟨⟨h1, h2⟩, h3⟩
+      exact ⟨⟨fun hne => h1.resolve_left hne, h2⟩, h3⟩
+    · rintro ⟨⟨h1, h2⟩, h3⟩
+      refine ⟨⟨?_, h2⟩, h3⟩
+      by_cases hc : c.nTotal = 0
+      · exact Or.inl hc
+      · exact Or.inr (h1 hc)
+
+theorem mem_maskRows_iff {β} (r : β) (rows : List β) (m : List Bool) :
+    r ∈ maskRows rows m ↔ (r, true) ∈ rows.zip m := by
+  simp only [maskRows, List.mem_map, List.mem_filter]
+  constructor
+  · rintro ⟨⟨a, b⟩, ⟨hp, hb⟩, rfl⟩
+    simp only at hb
+    subst hb
+    exact hp
+  · intro h
+    exact ⟨(r, true), ⟨h, rfl⟩, rfl⟩
+
+theorem allRows_length {α} (cleaned : Bool) (s : Slab α) (h : cleaned = true → s.clean.length = s.halos.length) :
+    (allRows cleaned s).length = s.halos.length := by
+  unfold allRows
+  cases cleaned with
+  | false => simp
+  | true => simp [h rfl]
+
+theorem rowsOf_eq {α} (cleaned : Bool) (s : Slab α) (h : cleaned = true → s.clean.length = s.halos.length) :
+    rowsOf cleaned s = .ok (allRows cleaned s) := by
+  unfold rowsOf allRows
+  cases cleaned with
+  | false => rfl
+  | true => simp [h rfl]
+
+theorem rowsOf_err {α} (s : Slab α) (h : ¬ s.clean.length = s.halos.length) :
+    rowsOf true s = .error .badLength := by
+  unfold rowsOf
+  simp [h]
+
+/-- the compaction core of `wf` against the explicit conditions, for any list of per-file masks -/
+theorem wf_core {α} (o : Opts) :
+    ∀ (slabs : List (Slab α)) (mks : List (Option (List Bool))),
+      ((match readAll o.cleaned slabs mks with
+        | .error _ => false
+        | .ok kept => (slabs.zip kept).all (fun p => p.2.all (fun r => (loadList o).all (fun X =>
+            rowWF X (p.1.part X) (p.1.cleanPart X) r)))) = true) ↔
+      (slabs.length ≤ mks.length ∧ ∀ p ∈ slabs.zip mks, slabOK o p.1 p.2) := by
+  intro slabs
+  induction slabs with
+  | nil => intro mks; simp [readAll]
+  | cons s ss ih =>
+    intro mks
+    cases mks with
+    | nil => simp [readAll]
+    | cons m ms =>
+      have ihh := ih ms
+      simp only [List.length_cons, Nat.add_le_add_iff_right, List.zip_cons_cons, List.mem_cons, forall_eq_or_imp]
+      unfold readAll
+      by_cases hcl : o.cleaned = true → s.clean.length = s.halos.length
+      · have hrows := rowsOf_eq o.cleaned s hcl
+        have hlen := allRows_length o.cleaned s hcl
+        cases m with
+        | none =>
+          have hf : readFile o.cleaned s none = .ok (allRows o.cleaned s) := by simp [readFile, hrows]
+          rw [hf]
+          simp only []
+          cases hr : readAll o.cleaned ss ms with
+          | error e =>
+            rw [hr] at ihh
+            simp only [Bool.false_eq_true, false_iff] at ihh ⊢
+            intro hh
+            exact ihh ⟨hh.1, hh.2.2⟩
+          | ok ks =>
+            rw [hr] at ihh
+            simp only [List.zip_cons_cons, List.all_cons, Bool.and_eq_true] at ihh ⊢
+            rw [ihh]
+            simp only [slabOK, List.all_eq_true, rowWF_iff]
+            constructor
+            · rintro ⟨h1, h2, h3⟩
+              exact ⟨h2, ⟨hcl, h1⟩, h3⟩
+            · rintro ⟨h2, ⟨_, h1⟩, h3⟩
+              exact ⟨h1, h2, h3⟩
+        | some m0 =>
+          by_cases hm : m0.length = s.halos.length
+          · have hf : readFile o.cleaned s (some m0) = .ok (maskRows (allRows o.cleaned s) m0) := by
+              simp [readFile, hrows, hlen, hm]
+            rw [hf]
+            simp only []
+            cases hr : readAll o.cleaned ss ms with
+            | error e =>
+              rw [hr] at ihh
+              simp only [Bool.false_eq_true, false_iff] at ihh ⊢
+              intro hh
+              exact ihh ⟨hh.1, hh.2.2⟩
+            | ok ks =>
+              rw [hr] at ihh
+              simp only [List.zip_cons_cons, List.all_cons, Bool.and_eq_true] at ihh ⊢
+              rw [ihh]
+              simp only [slabOK, List.all_eq_true, rowWF_iff, mem_maskRows_iff]
+              constructor
+              · rintro ⟨h1, h2, h3⟩
+                refine ⟨h2, ⟨hcl, hm, ?_⟩, h3⟩
+                rintro ⟨r, b⟩ hq hb X hX
+                simp only at hb
+                subst hb
+                exact h1 r hq X hX
+              · rintro ⟨h2, ⟨_, _, h1⟩, h3⟩
+                exact ⟨fun r hr X hX => h1 (r, true) hr rfl X hX, h2, h3⟩
+          · have hf : readFile o.cleaned s (some m0) = .error .badLength := by
+              simp [readFile, hrows, hlen, hm]
+            rw [hf]
+            simp only [Bool.false_eq_true, false_iff]
+            intro hh
+            exact hm hh.2.1.2.1
+      · have hct : o.cleaned = true := Classical.byContradiction (fun hc => hcl (fun h => absurd h hc))
+        have hne : ¬ s.clean.length = s.halos.length := fun h => hcl (fun _ => h)
+        have hf : readFile o.cleaned s m = .error .badLength := by
+          unfold readFile
+          rw [hct, rowsOf_err s hne]
+        rw [hf]
+        simp only [Bool.false_eq_true, false_iff]
+        intro hh
+        exact hcl hh.2.1.1
+
+theorem mem_zip_replicate {β γ} (x : γ) : ∀ (l : List β) (p : β × γ),
+    p ∈ l.zip (List.replicate l.length x) ↔ p.1 ∈ l ∧ p.2 = x := by
+  intro l
+  induction l with
+  | nil => intro p; simp
+  | cons a l ih =>
+    intro p
+    simp only [List.length_cons, List.replicate_succ, List.zip_cons_cons, List.mem_cons, ih]
+    constructor
+    · rintro (rfl | ⟨h1, h2⟩)
+      · exact ⟨Or.inl rfl, rfl⟩
+      · exact ⟨Or.inr h1, h2⟩
+    · rintro ⟨h1 | h1, h2⟩
+      · left; cases p; simp_all
+      · exact Or.inr ⟨h1, h2⟩
+
+/-- **wf_iff.**  The decidable `wf` (phrased through the model's compaction) is exactly the explicit
+predicate `wfE` on the input. -/
+theorem wf_iff {α} (o : Opts) (slabs : List (Slab α)) : wf o slabs = true ↔ wfE o slabs := by
+  unfold wf wfE
+  cases hm : o.masks with
+  | none =>
+    simp only [masksFor]
+    refine Iff.trans (wf_core o slabs (List.replicate slabs.length none)) ?_
+    simp only [List.length_replicate, Nat.le_refl, true_and]
+    constructor
+    · intro h s hs
+      exact h (s, none) ((mem_zip_replicate none slabs (s, none)).mpr ⟨hs, rfl⟩)
+    · intro h p hp
+      obtain ⟨h1, h2⟩ := (mem_zip_replicate none slabs p).mp hp
+      rw [h2]
+      exact h p.1 h1
+  | some ms =>
+    simp only [masksFor]
+    by_cases hl : ms.length = slabs.length
+    · rw [if_neg (by simpa using hl)]
+      simp only []
+      refine Iff.trans (wf_core o slabs (ms.map some)) ?_
+      simp only [List.length_map, hl, Nat.le_refl, true_and]
+      rw [List.zip_map_right]
+      constructor
+      · intro h p hp
+        exact h (p.1, some p.2) (List.mem_map.mpr ⟨p, hp, rfl⟩)
+      · intro h p hp
+        obtain ⟨q, hq, rfl⟩ := List.mem_map.mp hp
+        exact h q hq
+    · rw [if_pos (by simpa using hl)]
+      simp only [Bool.false_eq_true, false_iff]
+      intro hh
+      exact hl hh.1
 
 end AbacusVerif.Catalog
